@@ -38,7 +38,7 @@ ASSUMPTIONS = [
 ]
 PROBES = ("suppress_then_raise", "replacement_chain", "enter_failed", "callback_cannot_suppress", "aclose_midway",
           "pop_all", "unwind_again", "block_raises", "sync_cm", "pushed_callable", "ambient_exception", "falsy_exception",
-          "stack_reused_after_unwind")
+          "stack_reused_after_unwind", "pop_all_inside_an_exit", "exit_raises_stopiteration", "dual_protocol_manager")
 
 KINDS = ("async_cm", "sync_cm", "push_async_cm", "push_sync_cm", "push_async_fn", "push_sync_fn",
          "callback_sync", "callback_async")
@@ -51,6 +51,12 @@ class Tagged(Exception):
         self.tag = tag
 
 
+class TaggedStop(StopIteration):
+    def __init__(self, tag):
+        StopIteration.__init__(self, repr(tag))
+        self.tag = tag
+
+
 class FalsyTagged(Tagged):
     """An exception object that tests false (it has a length): an exception all the same"""
 
@@ -58,14 +64,21 @@ class FalsyTagged(Tagged):
         return 0
 
 
+SYNC_KINDS = ("sync_cm", "push_sync_cm", "push_sync_fn")  # callbacks run inside a wrapper coroutine of the stack
+
+
 def model_unwind(entries, exc):
     """
     The unwinding rule of the statement, on tags: reverse order; exits see the exception in flight, callbacks
     nothing; a truthy exit suppresses, a raising one replaces.  Cross-checked against the literal nested
-    statements in every program run.
+    statements in every program run.  Returns (exit log, exception coming out, entries moved away by an exit that
+    called pop_all() on the stack being unwound - those are not run by this unwind at all).
     """
     log = []
-    for e in reversed(entries):
+    todo = list(entries)
+    moved = []
+    while todo:
+        e = todo.pop()
         is_cb = e.kind.startswith("callback")
         recv = None if is_cb else exc
         log.append(("exit", e.name, recv))
@@ -75,7 +88,15 @@ def model_unwind(entries, exc):
                 exc = None
         elif b == "raise_new" or (b == "raise_handling" and recv is not None):
             exc = ("exit", e.name)
-    return log, exc
+        elif b == "raise_stop":
+            # a StopIteration raised by a *synchronous* exit is an exception like any other for the exits still to
+            # come; raised inside a coroutine (an async exit) the interpreter turns it into a RuntimeError at once
+            exc = ("stop", e.name) if e.kind in SYNC_KINDS else "RuntimeError"
+        elif b == "pop_all_inside":
+            moved, todo = todo, []
+    if type(exc) is tuple and exc[0] == "stop":
+        exc = "RuntimeError"  # leaving the stack's own coroutine, the interpreter converts it (PEP 479)
+    return log, exc, moved
 
 
 async def in_ambient(ambient, fn):
@@ -93,11 +114,11 @@ def tag(exc):
 
 
 class Entry:
-    __slots__ = ("name", "kind", "behave", "susp", "enter_fails", "args")
+    __slots__ = ("name", "kind", "behave", "susp", "enter_fails", "args", "dual")
 
     def describe(self):
         return {"name": self.name, "kind": self.kind, "exit": self.behave, "suspends": self.susp,
-                "enter_fails": self.enter_fails}
+                "enter_fails": self.enter_fails, "also_offers_sync_protocol": self.dual}
 
 
 def gen_entries(ch, n):
@@ -110,6 +131,7 @@ def gen_entries(ch, n):
         e.susp = ch.draw(3)
         e.enter_fails = e.kind in ("async_cm", "sync_cm") and ch.chance(1, 10)
         e.args = (i, "x")
+        e.dual = e.kind in ("async_cm", "push_async_cm") and ch.chance(1, 4)
         out.append(e)
     return out
 
@@ -123,6 +145,8 @@ class Env:
         self.log = []
         self.count = {}
         self.exc_type = exc_type
+        self.current_stack = None  # the stack being unwound right now (for an exit that calls pop_all on it)
+        self.moved = []
 
     async def pause(self, n):
         for _ in range(n):
@@ -138,6 +162,10 @@ class Env:
             return True
         if b == "raise_new" or (b == "raise_handling" and exc is not None):
             raise self.exc_type(("exit", e.name))
+        if b == "raise_stop":
+            raise TaggedStop(("stop", e.name))
+        if b == "pop_all_inside":
+            self.moved.append(self.current_stack.pop_all())
         return False
 
     def make(self, e):
@@ -154,6 +182,20 @@ class Env:
             async def __aexit__(self, et, ev, tb):
                 await env.pause(e.susp)
                 return env.logic(e, ev)
+
+        if e.dual:
+            # the manager also offers the blocking protocol (with another meaning): in an async-with statement,
+            # and hence for the stack, the asynchronous side is the one that counts
+            def _enter(self):
+                env.log.append(("exit", e.name, "SYNC-SIDE-ENTERED"))
+                return "sync side"
+
+            def _exit(self, et, ev, tb):
+                env.log.append(("exit", e.name, "SYNC-SIDE-EXITED"))
+                return True
+
+            AsyncCM.__enter__ = _enter
+            AsyncCM.__exit__ = _exit
 
         class SyncCM:
             def __enter__(self):
@@ -305,6 +347,14 @@ def gen(ch):
     if sc.mode == "history":
         for e in sc.entries:
             e.enter_fails = False
+        if n >= 2 and ch.chance(1, 4):
+            # one exit calls pop_all() on the very stack that is being unwound
+            sc.entries[ch.draw(n)].behave = "pop_all_inside"
+        if n >= 1 and ch.chance(1, 4):
+            # one exit raises StopIteration (of all exceptions)
+            e = sc.entries[ch.draw(n)]
+            if e.behave != "pop_all_inside":
+                e.behave = "raise_stop"
         # positions (in registration order) at which extra ops happen
         steps = []
         for i in range(n + 1):
@@ -329,11 +379,14 @@ async def run_history(sc, env, res):
     async def aclose_of(stk, names, how):
         start = len(env.log)
         out_tag = None
+        env.current_stack = stk
         try:
             await in_ambient(sc.ambient, stk.aclose)
         except Tagged as err:
             out_tag = err.tag
-        unwinds.append((how, list(names), None, [x for x in env.log[start:] if x[0] == "exit"], out_tag))
+        except RuntimeError:
+            out_tag = "RuntimeError"
+        unwinds.append((how, list(names or ()), None, [x for x in env.log[start:] if x[0] == "exit"], out_tag))
 
     holder = []
 
@@ -356,6 +409,7 @@ async def run_history(sc, env, res):
                     await register(stack, sc.entries[i], objs[i])
                     groups[-1].append(sc.entries[i].name)
             env.log.append(("mark", "leave"))
+            env.current_stack = stack
             if sc.block_raises:
                 raise env.exc_type("block")
 
@@ -365,6 +419,9 @@ async def run_history(sc, env, res):
     except Tagged as err:
         out_tag = err.tag
         res.append(("raised", err.tag))
+    except RuntimeError:
+        out_tag = "RuntimeError"
+        res.append(("raised", "RuntimeError"))
     marks.append(("unwound", list(groups[-1])))
     leave = max(i for i, x in enumerate(env.log) if x == ("mark", "leave"))
     unwinds.append(("leave", list(groups[-1]), "block" if sc.block_raises else None,
@@ -381,9 +438,24 @@ async def run_history(sc, env, res):
     else:
         for new, names in popped:
             marks.append(("never", names))
+    # stacks split off by an exit that called pop_all() while its stack was being unwound: closed last
+    for m in list(env.moved):
+        env.log.append(("mark", "close_moved"))
+        await aclose_of(m, None, "close_moved")
     res.append(("marks", marks))
-    res.append(("unwinds", [(how, names, tin, exits, tout, model_unwind([by_name[n] for n in names], tin))
-                            for how, names, tin, exits, tout in unwinds]))
+    judged = []
+    expected_moved = []
+    for how, names, tin, exits, tout in unwinds:
+        if how == "close_moved":
+            ents = expected_moved.pop(0) if expected_moved else []
+        else:
+            ents = [by_name[n] for n in names]
+        mlog, mout, mmoved = model_unwind(ents, tin)
+        if mmoved or any(e.behave == "pop_all_inside" for e in ents if ("exit", e.name) in [x[:2] for x in mlog]):
+            if any(e.behave == "pop_all_inside" and ("exit", e.name) in [x[:2] for x in mlog] for e in ents):
+                expected_moved.append(mmoved)
+        judged.append((how, [e.name for e in ents], tin, exits, tout, (mlog, mout)))
+    res.append(("unwinds", judged))
 
 
 def execute(st, ctx):
@@ -424,9 +496,9 @@ def execute(st, ctx):
                 # the unwinding model used for histories must agree with the literal statements (else: harness bug)
                 failing = next((i for i, e in enumerate(sc.entries) if e.enter_fails), None)
                 if failing is None:
-                    mlog, mexc = model_unwind(sc.entries, "block" if sc.block_raises else None)
+                    mlog, mexc, _ = model_unwind(sc.entries, "block" if sc.block_raises else None)
                 else:
-                    mlog, mexc = model_unwind(sc.entries[:failing], ("enter", sc.entries[failing].name))
+                    mlog, mexc, _ = model_unwind(sc.entries[:failing], ("enter", sc.entries[failing].name))
                 if mlog != [x for x in env_r.log if x[0] == "exit"] or (("raised", mexc) if mexc is not None else ("completed",)) != r:
                     raise RuntimeError("unwind model disagrees with the nested statements: %r / %r vs %r" % (mlog, mexc, describe()))
                 # the nested statement cannot tell 'normal' from 'suppressed' from outside either
@@ -529,6 +601,12 @@ def execute(st, ctx):
         out.probes["pushed_callable"] = 1
     if sc.ambient:
         out.probes["ambient_exception"] = 1
+    if env_a.moved:
+        out.probes["pop_all_inside_an_exit"] = 1
+    if any(b == "raise_stop" for b in behaves) and any(x[0] == "exit" for x in env_a.log):
+        out.probes["exit_raises_stopiteration"] = 1
+    if any(e.dual for e in sc.entries):
+        out.probes["dual_protocol_manager"] = 1
     if sc.falsy_exc and (sc.block_raises or out.faults.get("exit_raises")):
         out.probes["falsy_exception"] = 1
     if sc.mode == "history" and any(op == "aclose" and pos < len(sc.entries) for pos, op in sc.steps):
